@@ -242,6 +242,14 @@ def rule_poll(fx, rep):
     for key, msg, site in ign:
         ok = False
         rep.violation("C09-POLL", "C09-POLL/" + key, msg + ": the polling points reached meanwhile do not observe a stop request, and the search goes on examining positions", site)
+    # ... an expired limit is observed too: no finite limit is mistaken for "no limit" (C05-LIMIT, re-reported; seed C09-6b)
+    lf, ln, lnotes = pC05.limit_verdicts(fx)
+    n += max(1, ln)
+    rep.obligation(not lf, max(1, ln))
+    for fn_, key, msg in lf:
+        ok = False
+        b_ = fx.one(fn_)
+        rep.violation("C09-POLL", "C09-POLL/limit/" + key, msg + " - every poll then ignores the expired limit", {"fn": b_.name, "file": b_.file, "line": b_.line})
     # ... and the polling functions cannot panic themselves (a panic at a polling point is the opposite of unwinding with a
     # move): their panic sites are discharged as in C04-CONE (same interval arguments and class table)
     import core
@@ -385,14 +393,22 @@ def rule_fallback(fx, rep):
                               {"fn": b.name, "file": b.file, "line": t.get("line")})
     rep.obligation(good and seen_pm >= 1)
     # panic_move: first move of a fresh move picker
-    pm = fx.one("search::panic_move")
+    pms = fx.find("search::panic_move")
     n += 1
-    nx = pm.calls_to("MovePicker::next")
-    good = len(nx) == 1 and bool(pm.calls_to("MovePicker::new"))
-    rep.obligation(good)
-    if not good:
-        ok = False
-        rep.violation("C09-FALLBACK", "C09-FALLBACK/panic_move", "panic_move does not take the first move of a fresh MovePicker", {"fn": pm.name, "file": pm.file, "line": pm.line})
+    if len(pms) == 1:
+        pm = pms[0]
+        nx = pm.calls_to("MovePicker::next")
+        good = len(nx) == 1 and bool(pm.calls_to("MovePicker::new"))
+        rep.obligation(good)
+        if not good:
+            ok = False
+            rep.violation("C09-FALLBACK", "C09-FALLBACK/panic_move", "panic_move does not take the first move of a fresh MovePicker", {"fn": pm.name, "file": pm.file, "line": pm.line})
+    else:
+        # no fallback function: the return clause above has already reported it if search() can end without a move
+        rep.obligation(not ok)
+        if ok:
+            ok = False
+            rep.violation("C09-FALLBACK", "C09-FALLBACK/panic_move", "there is no fallback move (`panic_move`): a search aborted before its first root move is scored has no move to return", {"fn": search.name, "file": search.file, "line": search.line})
     # writers of a PV inside the search cone: push only from negamax
     neg = fx.one("search::negamax::negamax")
     cone = fx.cone([search.name])
